@@ -690,10 +690,39 @@ def pt_like_dicts(node):
     return out
 
 
+def r9_exact_float_discipline(ctx, rule, prefixes=('lib_guesser/pcfg_grammar.py', 'lib_guesser/priority_queue.py', 'lib_guesser/grammar_io.py')):
+    """Generic: in the guesser core probabilities are compared exactly - no tolerance, rounding or formatting."""
+    n = 0
+    bad = False
+    for q, fn in ctx.repo.all_funcs():
+        if not q.startswith(tuple(prefixes)):
+            continue
+        for node in walk_local(fn):
+            if isinstance(node, ast.Compare):
+                n += 1
+                for opnd in [node.left] + list(node.comparators):
+                    t = U(opnd)
+                    if 'prob' in t and isinstance(opnd, (ast.BinOp, ast.Call)) and not t.startswith('self._find_prob('):
+                        inner = call_name(opnd) if isinstance(opnd, ast.Call) else None
+                        if isinstance(opnd, ast.BinOp) and isinstance(opnd.op, (ast.Sub, ast.Add)) or inner in ('abs', 'round', 'math.fabs', 'math.floor'):
+                            bad = True
+                            ctx.bad(rule, q, 'probability compared through arithmetic: ' + U(node)[:80],
+                                    'probabilities must be compared exactly: order, adoption ties, restore regions and group '
+                                    'membership are all defined on exact equality; a tolerance makes distinct values tie', None, node)
+            if isinstance(node, ast.Call) and call_name(node) in ('math.isclose', 'isclose', 'round') and any('prob' in U(a) for a in node.args):
+                n += 1
+                bad = True
+                ctx.bad(rule, q, 'inexact probability operation: ' + U(node)[:80], 'probabilities must not be rounded or compared '
+                        'with a tolerance in the generator core', None, node)
+    if ctx.floor(rule, prefixes[0], n, 10, 'comparisons in the guesser core') and not bad:
+        ctx.ok(rule, prefixes[0], 'no tolerance / rounding on probabilities among %d comparisons of the guesser core' % n)
+
+
 def rules(tier):
     return [('C01.R1', r1_heap_order), ('C01.R2', r2_heap_ownership), ('C01.R3', r3_prob_fold),
             ('C01.R4', r4_prob_pt_coupling), ('C01.R5', r5_successor), ('C01.R6', r6_loader_order),
-            ('C01.R7', r7_determinism), ('C01.R8', r8_uniform_scale)]
+            ('C01.R7', r7_determinism), ('C01.R8', r8_uniform_scale),
+            ('C01.R9', r9_exact_float_discipline)]
 
 
 META = {
